@@ -258,6 +258,16 @@ impl RuntimeData {
                     &self.memory,
                     Layout::new::<CaoLangObject>(),
                 );
+                // poison: whoever still uses the freed object sees an unrelated native function
+                std::ptr::write(
+                    obj.as_ptr(),
+                    CaoLangObject {
+                        marker: GcMarker::White,
+                        body: CaoLangObjectBody::NativeFunction(CaoLangNativeFunction {
+                            handle: Handle::from_u32(0xDEAD),
+                        }),
+                    },
+                );
                 return;
             }
             self.memory
